@@ -641,7 +641,7 @@ func (s *session) Push(serviceMethod string, args interface{}, setting ...Messag
 	var usedConn net.Conn
 W:
 	if usedConn, stat = s.write(output); !stat.OK() {
-		if stat == statConnClosed && s.redialForClient(usedConn) {
+		if stat == statConnClosed && s.redialForClient(usedConn, false) {
 			goto W
 		}
 		return stat
@@ -735,7 +735,7 @@ func (s *session) AsyncCall(
 	var usedConn net.Conn
 W:
 	if usedConn, cmd.stat = s.write(output); !cmd.stat.OK() {
-		if cmd.stat == statConnClosed && s.redialForClient(usedConn) {
+		if cmd.stat == statConnClosed && s.redialForClient(usedConn, false) {
 			goto W
 		}
 		cmd.done()
@@ -824,14 +824,20 @@ func (s *session) readDisconnected(oldConn net.Conn, err error) {
 	}
 
 	s.socket.Close()
-	if !s.redialForClient(oldConn) {
+	if !s.redialForClient(oldConn, true) {
 		s.changeStatus(statusPassiveClosed)
 		s.notifyClosed()
 		s.peer.pluginContainer.postDisconnect(s)
 	}
 }
 
-func (s *session) redialForClient(oldConn net.Conn) bool {
+// redialForClient redials for the reader that has finished handling a disconnection
+// (afterDisconnected) or for a writer that found the connection closed.
+// A writer redials only when no reader is handling the disconnection any more: while
+// the reader has not noticed the loss yet or is still waiting for handlers and
+// cancelling the pending calls, it would treat the calls re-sent on the new connection
+// as lost too and close the new connection.
+func (s *session) redialForClient(oldConn net.Conn, afterDisconnected bool) bool {
 	if s.redialForClientLocked == nil {
 		return false
 	}
@@ -841,7 +847,13 @@ func (s *session) redialForClient(oldConn net.Conn) bool {
 	if oldConn != s.getConn() {
 		return true
 	}
-	if s.tryChangeStatus(statusRedialing, statusOk, statusPassiveClosing, statusPassiveClosed, statusRedialFailed) {
+	var ok bool
+	if afterDisconnected {
+		ok = s.tryChangeStatus(statusRedialing, statusPassiveClosing)
+	} else {
+		ok = s.tryChangeStatus(statusRedialing, statusPassiveClosed, statusRedialFailed)
+	}
+	if ok {
 		return s.redialForClientLocked()
 	}
 	return false
